@@ -312,15 +312,85 @@ def copy_data_triangle(ctx, rule='copy-reads-named-triangle-only'):
                     conj = [x for x in fn.walk(inner['else']) if x['k'] == 'CallExpr' and x.get('callee') == 'conj']
                     if not conj:
                         problems.append('Upper arm does not conjugate')
-        # fast path: only taken for Lower, reads column j from the diagonal down
-        outer = [x for x in fn.walk() if x['k'] == 'IfStmt' and x.get('else', -1) >= 0 and (inner is None or x['id'] != inner['id'])]
-        for o in outer:
-            c = sym(fn, o['cond'], inline=False)
-            ats = atoms(c)
-            if ('P', pn[1]) in ats and not any(a == ('enum', 'Lower') or a == ('lit', '1') for a in ats):
-                problems.append('fast copy path is not restricted to the lower triangle')
+        # fast path: a contiguous run of memory starting at (j, j) is copied verbatim into packed column j.  In column-major
+        # storage the run is (j.., j) = the lower triangle, no conjugation needed; in row-major storage it is (j, j..) = the upper
+        # triangle and packed column j needs conj of it.  So the guard of that path may be true only for (column-major, Lower),
+        # or for (row-major, Upper) when the scalar is real.  The guard is evaluated for both triangles in this instantiation.
+        is_complex = bool(fn.cargs) and fn.cargs[0].startswith('std::complex')
+        fast = [x for x in fn.walk() if x['k'] == 'IfStmt' and any(y['k'] == 'CallExpr' and y.get('callee') in ('copy', 'copy_n', 'memcpy') for y in fn.walk(x['then']))]
+        for o in fast:
+            rowmajor = None
+            for y in fn.walk(o['cond']):
+                if y['k'] == 'DeclRefExpr' and y.get('name') == 'IsRowMajor' and 'val' in y:
+                    rowmajor = y['val'] != '0'
+                if y['k'] == 'DeclRefExpr' and y.get('name') == 'IsRowMajor' and 'cval' in y:
+                    rowmajor = y['cval'] != '0'
+            if rowmajor is None:
+                # through a const local
+                for y in fn.walk():
+                    if y['k'] == 'DeclStmt':
+                        for d in y['decls']:
+                            if 'init' in d and any(z['k'] == 'DeclRefExpr' and z.get('name') == 'IsRowMajor' for z in fn.walk(d['init'])):
+                                iv = fn.strip(fn.nodes[d['init']])
+                                cv = iv.get('cval', iv.get('val'))
+                                for z in fn.walk(d['init']):
+                                    cv = cv if cv is not None else z.get('cval', z.get('val'))
+                                if cv is not None:
+                                    rowmajor = cv not in ('0', 'false')
+            if rowmajor is None:
+                problems.append('storage order of the source not resolved in the fast-copy guard')
+                continue
+            for uplo, uname in ((1, 'Lower'), (2, 'Upper')):
+                try:
+                    taken = _ev_guard(fn, o['cond'], pn[1], uplo)
+                except ValueError as e:
+                    problems.append('fast-copy guard not evaluable: %s' % e)
+                    break
+                if not taken:
+                    continue
+                okfast = (not rowmajor and uname == 'Lower') or (rowmajor and uname == 'Upper' and not is_complex)
+                if not okfast:
+                    problems.append('verbatim copy is taken for (%s, %s, %s scalar): the run of memory starting at the diagonal is %s' %
+                                    ('row-major' if rowmajor else 'column-major', uname, 'complex' if is_complex else 'real',
+                                     'the other triangle' if (rowmajor != (uname == 'Upper')) else 'the named triangle WITHOUT the conjugation a Hermitian matrix needs'))
         ctx.check(not problems, rule, 'BKLDLT::copy_data', fn.qname,
                   'Lower reads (i, j), i >= j; otherwise conj of (j, i): only the named triangle' if not problems else '; '.join(problems))
+
+
+def _ev_guard(fn, n, uplo_name, uplo):
+    """Truth value of a guard over compile-time constants and the runtime triangle argument."""
+    n = fn.strip(n)
+    k = n['k']
+    if k == 'BinaryOperator' and n['op'] in ('&&', '||'):
+        a = _ev_guard(fn, fn.nodes[n['c'][0]], uplo_name, uplo)
+        b = _ev_guard(fn, fn.nodes[n['c'][1]], uplo_name, uplo)
+        return (a and b) if n['op'] == '&&' else (a or b)
+    if k == 'UnaryOperator' and n.get('op') == '!':
+        return not _ev_guard(fn, fn.nodes[n['c'][0]], uplo_name, uplo)
+    if k == 'BinaryOperator' and n['op'] in ('==', '!='):
+        a = _ev_guard(fn, fn.nodes[n['c'][0]], uplo_name, uplo)
+        b = _ev_guard(fn, fn.nodes[n['c'][1]], uplo_name, uplo)
+        return (a == b) if n['op'] == '==' else (a != b)
+    if k == 'DeclRefExpr':
+        if n.get('name') == uplo_name and n.get('dk') == 'param':
+            return uplo
+        for key in ('cval', 'val'):
+            if key in n:
+                return int(n[key]) if n[key] not in ('true', 'false') else (1 if n[key] == 'true' else 0)
+        # const local: its initialiser
+        if 'var' in n:
+            for y in fn.walk():
+                if y['k'] == 'DeclStmt':
+                    for d in y['decls']:
+                        if d.get('var') == n['var'] and 'init' in d:
+                            return _ev_guard(fn, fn.nodes[d['init']], uplo_name, uplo)
+    if k in ('IntegerLiteral',):
+        return int(n['val'])
+    if k == 'CXXBoolLiteralExpr':
+        return 1 if n['val'] == 'true' else 0
+    if 'cval' in n:
+        return int(n['cval'])
+    raise ValueError(fn.s(n))
 
 
 def _loop_multi(fn, loop):
